@@ -190,7 +190,7 @@ Proof.
       destruct (lookup t k5) as [b|] eqn:E; [|reflexivity]. exfalso. apply (Hgone b). apply Hsub. apply lookup_in. exact E.
   - intros Hw Hin.
     assert (Hb : negb (negb (f_twrite fl)) && negb (negb (f_swrite fl)) = false) by (destruct Hw as [-> | ->]; cbn; [reflexivity|apply andb_false_r]).
-    rewrite Hb in Hin. fold k5 in Hin. apply trusted_keys_in in Hin. destruct Hin as (x & b & Hi & _ & Hk).
+    rewrite Hb in Hin. fold k5 in Hin. apply published_sub in Hin. apply trusted_keys_in in Hin. destruct Hin as (x & b & Hi & _ & Hk).
     apply Hsub in Hi. pose proof (proj2 W4 _ _ Hi) as Hx. rewrite Hk, <- Ht in Hx. subst x. exact (Hgone b Hi).
 Qed.
 
